@@ -21,6 +21,8 @@ pub struct SchedState {
     pub switches_in_build: u64,
     pub steps: u64,
     pub deadlock: bool,
+    /// voluntary in-build switch points still allowed in this run (bounds the cost of runs on large inputs)
+    pub in_build_budget: u64,
     mode: Mode,
     mailbox_full: Vec<bool>,
     all_done: bool,
@@ -79,6 +81,7 @@ impl Sched {
                 switches_in_build: 0,
                 steps: 0,
                 deadlock: false,
+                in_build_budget: 3000,
                 mode,
                 mailbox_full: vec![false; mailboxes],
                 all_done: n == 0,
@@ -233,6 +236,12 @@ impl Sched {
         let mut st = self.state.lock().unwrap();
         if st.deadlock {
             return;
+        }
+        if in_build {
+            if st.in_build_budget == 0 {
+                return;
+            }
+            st.in_build_budget -= 1;
         }
         let next = Self::choose(&mut st, Some(me), false);
         self.hand_over(st, me, next, in_build, true);
